@@ -1338,6 +1338,31 @@ def interplay_docs() -> list[tuple[str, dict]]:
     return out
 
 
+OVERRIDES = {"text/plain; charset=utf-8": "application/json", "application/vnd.acme.widget; version=2": "application/json", "application/zip": "application/octet-stream",
+             "application/x-ndjson": "text/plain", "application/vnd.acme.upload": "multipart/form-data", "Application/X-Mixed-Case": "application/json"}
+
+
+def override_docs() -> list[tuple[str, dict, dict]]:
+    """(label, document, content_type_overrides): responses and request bodies documented under media types that only the
+    option makes supported - keys with parameters, vendor types, a key in mixed case; next to ordinary ones."""
+    R = lambda n: {"$ref": f"#/components/schemas/{n}"}  # noqa: E731
+    out = []
+    for version in ("3.0.3", "3.1.0"):
+        d = base_doc(version, "Overrides")
+        d["components"]["schemas"] = {"Widget": {"type": "object", "properties": {"id": {"type": "integer"}, "name": {"type": "string"}}, "required": ["id"]}, "Kind": {"type": "string", "enum": ["a", "b"]}}
+        J = lambda mt, sch: {mt: {"schema": sch}}  # noqa: E731
+        d["paths"] = {
+            "/w1": {"get": {"operationId": "w_param_key", "responses": {"200": {"description": "ok", "content": J("text/plain; charset=utf-8", R("Widget"))}, "404": {"description": "nf", "content": J("text/plain", {"type": "string"})}}}},
+            "/w2": {"get": {"operationId": "w_vendor_key", "responses": {"200": {"description": "ok", "content": J("application/vnd.acme.widget; version=2", {"type": "array", "items": R("Widget")})},
+                                                                           "201": {"description": "ok", "content": J("application/json", R("Kind"))}}}},
+            "/w3": {"get": {"operationId": "w_zip", "responses": {"200": {"description": "ok", "content": J("application/zip", {"type": "string", "format": "binary"})}, "202": {"description": "ok", "content": J("application/x-ndjson", {"type": "string"})}}}},
+            "/w4": {"post": {"operationId": "w_bodies", "requestBody": {"content": {**J("application/vnd.acme.widget; version=2", R("Widget")), **J("application/vnd.acme.upload", {"type": "object", "properties": {"a": {"type": "string"}}, "additionalProperties": False})}},
+                             "responses": {"200": {"description": "ok", "content": J("Application/X-Mixed-Case", R("Widget"))}}}},
+        }
+        out.append((f"overrides:{version}", d, dict(OVERRIDES)))
+    return out
+
+
 def typing_stress_docs() -> list[tuple[str, dict]]:
     """Documents aimed at the type checker only (no instances are derived from them): unions that combine anyOf and
     oneOf, responses whose media types disagree, bodies / parameters of every union flavour."""
